@@ -230,7 +230,7 @@ func decodeScalar(data []byte, oid int) interface{} {
 		tz := i32(data, 8) // timezone offset in seconds
 		return fmt.Sprintf("%02d:%02d:%02d%+03d", us/3600e6, (us/60e6)%60, (us/1e6)%60, -tz/3600)
 	case OidTimestamp, OidTimestampTZ:
-		return pgEpoch.Add(time.Duration(i64(data, 0)) * time.Microsecond).Format("2006-01-02 15:04:05")
+		return formatTimestamp(i64(data, 0))
 	case OidInterval:
 		return decodeInterval(data)
 
@@ -287,6 +287,24 @@ func decodeScalar(data []byte, oid int) interface{} {
 	default:
 		return safeString(data)
 	}
+}
+
+// formatTimestamp renders microseconds since 2000-01-01 00:00:00 (UTC).
+// The value is split into whole seconds and a remainder first: a time.Duration
+// holds nanoseconds and overflows beyond +/-292 years.
+func formatTimestamp(us int64) string {
+	switch us {
+	case math.MaxInt64: // DT_NOEND
+		return "infinity"
+	case math.MinInt64: // DT_NOBEGIN
+		return "-infinity"
+	}
+	sec, rem := us/1000000, us%1000000
+	if rem < 0 {
+		sec--
+		rem += 1000000
+	}
+	return time.Unix(pgEpoch.Unix()+sec, rem*1000).UTC().Format("2006-01-02 15:04:05")
 }
 
 func decodePoint(data []byte) string {
